@@ -6,9 +6,14 @@ from framework import lean_obligations
 PROFILE = gen.Profile(
     max_states=4, extra_trans=(1, 6), p_multi_event=0.45, p_internal=0.2,
     p_group=dict(validators=0.15, cond=0.2, unless=0.1, before=0.6, on=0.6, after=0.35, enter=0.35, exit=0.35),
-    max_per_group=3, p_conv=0.3, p_nested=0.05, p_raise=0.03, p_validator_raise=0.1, p_unknown_event=0.1,
+    max_per_group=3, p_conv=0.3, p_nested=0.3, max_nested_rows=3, p_raise=0.03, p_validator_raise=0.1, p_unknown_event=0.1,
     n_ops=(3, 12), p_rtc_off=0.25, p_allow=0.4,
 )
+# few result-bearing callbacks, many nested sends: an outer event whose own result is None while a
+# chained event returns a value (the outermost call must still return None)
+PROFILE_SPARSE = gen.Profile(**{**PROFILE.__dict__, "p_nested": 0.8, "max_nested_rows": 4, "p_rtc_off": 0.3,
+                                "p_group": dict(validators=0.1, cond=0.15, unless=0.05, before=0.2, on=0.25, after=0.5,
+                                                enter=0.5, exit=0.3)})
 PROFILE_ASYNC = gen.Profile(**{**PROFILE.__dict__, "p_coro": 0.5, "drivers": ("facade", "loop"), "p_rtc_off": 0.0})
 
 
@@ -22,14 +27,52 @@ def nontrivial(s, a, rt):
     return False
 
 
+def chained_variants(rng, s):
+    """expand: the scenario itself plus variants in which a callback of an event whose own result is
+    None sends another event (the outermost call must still return None, whatever the chained event
+    returns)."""
+    import copy
+    import eng
+    impl, rt = eng.run_impl(s)
+    if impl and impl[0].startswith("DEFERR"):
+        return [s]
+    evs = sorted({e for t in s.trans for e in t.events})
+    spots = []
+    for entries, R in split_ops(eng.canon(impl)):
+        if len(R) > 3 and R[2] == "ok" and R[3] == "None" and s.ops[int(R[1])][0] == "send":
+            kv = dict(p.split("=", 1) for p in R if "=" in p)
+            for l in entries:
+                p = l.split(" ")
+                if p[0] == "B" and p[1] == kv.get("tid") and p[2] in ("before", "on", "after", "enter", "exit"):
+                    c = rt.cbmap.get(int(p[3]))
+                    if c is not None and not c.alias_of and int(p[3]) not in rt.aliases:
+                        spots.append((int(p[3]), int(p[1])))
+    out = [s]
+    rng.shuffle(spots)
+    for k, (cb, tid) in enumerate(spots[:2]):
+        c = copy.deepcopy(s)
+        c.name = f"{s.name}-n{k}"
+        ret, rz, sends = rt.act(cb, tid)
+        if rz is not None or sends:
+            continue
+        c.acts.insert(0, (cb, tid, tid, ret, None, [rng.choice(evs)]))
+        out.append(c)
+    return out
+
+
 def run(ctx):
     lean_obligations(ctx)
     ctx.coverage["rule"] = ("seeded random machines with 0-3 before x 0-3 on callbacks in every attachment style and "
                             "provider, return pool None/0/''/[]/[1,2]/()/{}/str/float, internal/self/multi-event "
                             "transitions, both engines; non-trivial = an executed transition had >=2 contributing "
                             "callbacks or a single one returning None/a container")
-    engine_check(ctx, PROFILE, 900, 20000, nontrivial, monitor=c14_monitor, tag="C14s")
+    engine_check(ctx, PROFILE, 700, 16000, nontrivial, monitor=c14_monitor, tag="C14s")
+    cov0 = dict(ctx.coverage)
+    engine_check(ctx, PROFILE_SPARSE, 350, 8000, nontrivial, monitor=c14_monitor, tag="C14n", expand=chained_variants)
     cov1 = dict(ctx.coverage)
+    for k in ("evaluations", "distinct_nontrivial", "traces_validated_against_impl", "disagreements", "monitor_failures"):
+        cov1[k] = cov1.get(k, 0) + cov0.get(k, 0)
+    ctx.coverage["distribution_nested"] = ctx.coverage.get("distribution")
     engine_check(ctx, PROFILE_ASYNC, 300, 8000, nontrivial, monitor=c14_monitor, tag="C14a")
     for k in ("evaluations", "distinct_nontrivial", "traces_validated_against_impl", "disagreements", "monitor_failures"):
         ctx.coverage[k] = ctx.coverage.get(k, 0) + cov1.get(k, 0)
